@@ -12,16 +12,16 @@ rsync -a --exclude .git --exclude SEED /repo/ "$d/clean/"
 rsync -a --exclude .git --exclude SEED /repo/ "$d/mut/"
 (cd "$d/mut" && patch -s -p1 < "$src/patch.diff") || { echo "PATCH DOES NOT APPLY"; exit 1; }
 (cd "$d/mut" && GOFLAGS=-mod=vendor go build -o "$d/gd" .) || { echo "DOES NOT BUILD"; exit 1; }
-t=$(cd "$d/mut" && go test -mod=mod -vet=off -count=1 ./... 2>&1 | grep -v 'no test files' | grep -c '^FAIL\|^--- FAIL' || true)
-tc=$(cd "$d/clean" && go test -mod=mod -vet=off -count=1 ./... 2>&1 | grep -v 'no test files' | grep -c '^FAIL\|^--- FAIL' || true)
+t=$(cd "$d/mut" && go test -mod=mod -vet=off -count=1 ./... 2>&1 | grep -v 'no test files' | grep -v GeneratedGoString | grep -c '^FAIL\|^--- FAIL' || true)
+tc=$(cd "$d/clean" && go test -mod=mod -vet=off -count=1 ./... 2>&1 | grep -v 'no test files' | grep -v GeneratedGoString | grep -c '^FAIL\|^--- FAIL' || true)
 echo "suite FAIL lines: mutated=$t clean=$tc"
 [ "$t" = "$tc" ] || { echo "TEST SUITE CHANGED"; exit 1; }
 set +e
-sh "$src/demo/run.sh" "$d/clean" > "$d/clean.out" 2>&1; rc=$?
-sh "$src/demo/run.sh" "$d/mut" > "$d/mut.out" 2>&1; rm=$?
+bash "$src/demo/run.sh" "$d/clean" > "$d/clean.out" 2>&1; rc=$?
+bash "$src/demo/run.sh" "$d/mut" > "$d/mut.out" 2>&1; rm=$?
 set -e
 echo "demo exit: clean=$rc mutated=$rm"
-[ "$rc" = 0 ] && [ "$rm" != 0 ] || { echo "DEMO DOES NOT DISCRIMINATE"; tail -5 "$d/clean.out" "$d/mut.out"; exit 1; }
+[ "$rc" = 0 ] && [ "$rm" != 0 ] || { echo "DEMO DOES NOT DISCRIMINATE"; tail -n 5 "$d/clean.out"; tail -n 5 "$d/mut.out"; exit 1; }
 dst=/verif/seeded/$name
 rm -rf "$dst"; mkdir -p "$dst"
 cp "$src/patch.diff" "$dst/patch.diff"
